@@ -570,15 +570,22 @@ def rule_templates(ctx):
     okc = v[0] == "call" and v[1] == "Formula::conjoin"
     ps = pushes(v[2][0]) if okc else []
     oki = False
-    if len(ps) == 1 and ps[0][0] == ((("if", SECOND), "then"),):
+    # the bounds t1, t2 of `t1..t2` are read off the term by a pattern that cannot fail on a term of the second kind (a `match` with a panicking
+    # other arm, or `let Term::BinaryOperation{..} = t else { unreachable!() }`): that pattern is not a further condition on the push
+    def core(conds):
+        return tuple(c for c in conds if not (isinstance(c[0], tuple) and c[0][:1] == ("match",) and c[0][1] == T and str(c[1]).startswith("Term::BinaryOperation")))
+    if len(ps) == 1 and core(ps[0][0]) == ((("if", SECOND), "then"),):
         nf = ftpl.NF()
         from .. import leaves as _lv
         f = nf.formula(resolve_expect(_lv.lift_proj(ps[0][1])))   # `(match t { B{lhs, rhs} => (lhs, rhs), _ => panic }).0` = `match t { B{lhs} => lhs, _ => panic }`
         Nv = var(nf.gen(NEXT), "Integer")
 
-        def side(which):
-            return ("term", nf.gen(("call", "Option::expect", (P2F(("match", T, (("Term::BinaryOperation{}", ("proj", T, (("Term::BinaryOperation", which),))), ("_", ("panic", "unreachable"))))), M("msg" + which)))))
-        bnd = match(AND(LE(side("lhs"), Nv), LE(Nv, side("rhs"))), f)
+        def side(which, direct):
+            bound = ("proj", T, (("Term::BinaryOperation", which),))
+            if not direct:
+                bound = ("match", T, (("Term::BinaryOperation{}", bound), ("_", ("panic", "unreachable"))))
+            return ("term", nf.gen(("call", "Option::expect", (P2F(bound), M("msg" + which)))))
+        bnd = match(AND(LE(side("lhs", False), Nv), LE(Nv, side("rhs", False))), f) or match(AND(LE(side("lhs", True), Nv), LE(Nv, side("rhs", True))), f)
         oki = bnd is not None
         ctx.add("TPL", "head_interval", oki, ctx.site(b), "for every head term t1..t2:  t1 <= N <= t2  with N the next fresh integer variable: %s" % render(f))
     else:
@@ -728,6 +735,39 @@ def rule_fresh(ctx):
         return ("cond", ("call", "IndexSet::contains", (TAKEN, ("ctor", "Variable", (("0", n),)))), pol)
     # one pass over the head terms (loop with push, or filter / map / collect, with or without a per-term helper): per term at most one name
     groups = v[1] if isinstance(v, tuple) and v[:1] == ("coll",) else ()
+    searched = False
+    if len(groups) == 1 and groups[0][0] == (TERMS,) and len(groups[0][1]) == 1:
+        # the search written as `once(N<i>).chain((0..).map(|j| N<i>_<j>)).find(free).expect(..)`: the first free candidate of the sequence -
+        # unfolded to its first two candidates, which is what one pass of the loop spelling shows
+        ts0, e0 = groups[0][1][0]
+        if isinstance(e0, tuple) and e0[:1] == ("call",) and e0[1] in ("Option::expect", "Option::unwrap") and isinstance(e0[2][0], tuple) and e0[2][0][:2] == ("call", "Iterator::find") \
+                and isinstance(e0[2][0][2][0], tuple) and e0[2][0][2][0][:1] == ("coll",):
+            cands, unbounded = [], False
+            for src, al in e0[2][0][2][0][1]:
+                if src == () and len(al) == 1 and not al[0][0]:
+                    cands.append(al[0][1])
+                elif len(src) == 1 and src[0] == ("ctor", "RangeFrom", (("start", ("lit", 0)),)) and len(al) == 1 and not al[0][0]:
+                    from ..leaves import replace as _replace
+                    cands.append(_replace(al[0][1], {("at", src[0]): ("lit", 0)}))
+                    unbounded = True
+                    break
+                else:
+                    cands = None
+                    break
+            if cands and unbounded:
+                pred = e0[2][0][2][1]
+                new_alts, before = [], list(ts0)
+                for c_ in cands:
+                    yes = comp._bool_tests(comp._app(pred, c_), True)
+                    no = comp._bool_tests(comp._app(pred, c_), False)
+                    if yes is False or no is False:
+                        new_alts = None
+                        break
+                    new_alts.append((frozenset(before + yes), c_))
+                    before = before + no
+                if new_alts:
+                    groups = ((groups[0][0], tuple(new_alts)),)
+                    searched = True
     alts = {ts: e for ts, e in groups[0][1]} if len(groups) == 1 and groups[0][0] == (TERMS,) else {}
     ctx.add("FRESH", "head:one-pass", len(groups) == 1 and groups[0][0] == (TERMS,) and len(alts) == len(groups[0][1]) == 2, ctx.site(b),
             "the fresh variables are collected in one pass over the head terms, in their order", construct=v if not alts else None)
@@ -741,7 +781,8 @@ def rule_fresh(ctx):
     fmt_src = " ".join(n["mac_src"] for lp in loops for n in walk(lp) if n.get("mac") == "format" and "mac_src" in n)
     incs = [n for lp in loops for n in walk(lp) if n.get("k") == "AssignOp" and re.search(r"\b%s\b" % re.escape(hq.render(n.get("l", n.get("lhs", {})))), fmt_src)]
     brk = [n for lp in loops for n in walk(lp) if n.get("k") in ("Break", "Ret")]
-    ctx.add("FRESH", "head:j-loop", bool(loops) and bool(brk) and len(incs) >= 1, ctx.site(b), "the search over j is an unbounded loop that stops at the first free name")
+    ctx.add("FRESH", "head:j-loop", searched or (bool(loops) and bool(brk) and len(incs) >= 1), ctx.site(b),
+            "the search over j is unbounded (a loop that increments j, or `find` over the candidates of `0..`) and stops at the first free name")
     # distinctness: names for different i differ (N<i> / N<i>_<j> contain i)
     ctx.add("FRESH", "head:distinct", ok and ok2 and all(e[0] == "format" and e[2][:1] == (I_,) for e in alts.values()), ctx.site(b),
             "every candidate name contains the index of its head term, so two head terms never share a variable")
